@@ -146,6 +146,9 @@ func DrawDAG(r *rng.R) *Entry {
 	}
 	b1 := r.Range(1, 3)
 	b2 := b1%3 + 1
+	if nin <= 2 && r.Chance(1, 12) {
+		b1 = []int{10, 11, 12, 21, 31, 101}[r.Intn(6)]
+	}
 	for _, b := range []int{b1, b1, b2} {
 		set := map[string]*val.V{}
 		for i := 0; i < nin; i++ {
